@@ -277,6 +277,7 @@ def embedded_statements(path):
             st["name"] = "%s__%s_%s_%d" % (re.sub(r"\W", "_", fq), st["kind"], st["table"], k)
             st["func"] = fq
             st["line"] = c.lineno
+            st["pos"] = (c.lineno, c.col_offset)
             st["sql"] = re.sub(r"\s+", " ", sql).strip()
             res.append(st)
     return res
